@@ -21,6 +21,12 @@ white space, unsorted mode lists, redundant parentheses, leading zeros.  `judge`
      writer variant — as found `! x` / repaired `(! x)` — is `fixed`; the other variant is recognised and
      counted, never reported by itself: the round trip decides), and the rebuilt object prints as the
      model's `parse` of that payload says;
+ (d) the writer as written: `serialize` does not print the tree, it rewrites `str(x)` with one regular-expression
+     pass (`_postselect_to_str`); `Model/C15PSW.lean` models that pass character by character (theorem: on the
+     printer's text it yields the model's repaired text).  The payload is compared with the model's pass over
+     `str(x)`; the private function itself is also run on the damaged texts of (c) (ASCII only) against the model
+     (same output, IndexError where the model has no result) - texts the printer never produces are outside its
+     domain, a difference there is only counted (`writer-model-differs-outside-domain`, 0 on the current code);
  (c) the parsers on user text and on mutated text (dropped / doubled / swapped / replaced character,
      unbalanced or removed parentheses, mixed operators, duplicate mode, huge numbers): whenever the model
      accepts, the native must accept and build the same tree (`str(native) == print false (model tree)`);
@@ -489,6 +495,65 @@ def native_parse(text):
     return str(p), p
 
 
+class _Printed:
+    """an object whose `str` is a given text (what `_postselect_to_str` reads of its argument)"""
+
+    def __init__(self, text):
+        self.text = text
+
+    def __str__(self):
+        return self.text
+
+
+def real_writer():
+    """the private regex pass of the serializer, or None when it is not there under that name (then only the
+    payloads are compared)"""
+    import sys
+    import perceval.serialization  # noqa: F401
+    mod = sys.modules.get("perceval.serialization.serialize")
+    return getattr(mod, "_postselect_to_str", None)
+
+
+def writer_stream(driver, texts, st, expect=None):
+    """`_postselect_to_str` on printed texts, well-formed and damaged (ASCII only: the scope of the model), against
+    the model's `scan`: same text, or IndexError where the model returns none.  `expect`: text -> what the real
+    serializer wrote for it (compared with the model even when the private function is not reachable)."""
+    texts = [t for t in dict.fromkeys(texts) if t.isascii()]
+    if not texts:
+        return None
+    answers = driver.ask_many([{"op": "pswrite", "text": t} for t in texts])
+    fn = real_writer()
+    if fn is None:
+        st["writer-hook-missing"] += 1
+    for t, a in zip(texts, answers):
+        if "err" in a:
+            return ("broken", "model-vs-code:postselect-writer", f"driver: {a['err']} on text {t!r}")
+        if expect and t in expect:
+            st["writer-model-payload"] += 1
+            if a["text"] != expect[t]:
+                return ("broken", "model-vs-code:postselect-writer",
+                        f"str = {t!r}: the serializer wrote {expect[t]!r}, the model of its regex pass {a['text']!r}")
+        if fn is None:
+            continue
+        try:
+            got = fn(_Printed(t))
+        except IndexError:
+            got = None
+        except Exception as e:                                  # noqa: BLE001
+            got = f"{type(e).__name__}"
+        st["writer-model-text"] += 1
+        if got is None:
+            st["writer-model-indexerror"] += 1
+        if got != a["text"]:
+            if expect and t in expect:
+                return ("broken", "model-vs-code:postselect-writer",
+                        f"_postselect_to_str on {t!r}: code {got!r}, model {a['text']!r}")
+            # a text the native printer never produces is outside the domain of the private function: an
+            # implementation may treat it differently without harm - counted, never reported
+            st["writer-model-differs-outside-domain"] += 1
+    return None
+
+
 def _short(s, n=160):
     s = s if isinstance(s, str) else json.dumps(s, separators=(",", ":"))
     return s if len(s) <= n else s[:n] + "…"
@@ -614,6 +679,10 @@ def judge(driver, spec, rng, serialize, deserialize, fixed=True, stats=None, n_m
                 if name in ("payload", "user"):
                     return ("broken", "model-vs-code:postselect-parser",
                             f"the model refuses the {name} text {t!r}, the native parser reads {n_str!r}")
+    # ---- (d) the writer as written (the regex pass of `_postselect_to_str`, Model/C15PSW.lean) ------------------
+    bad = writer_stream(driver, [x_str, found_txt] + texts, st, expect={x_str: payload})
+    if bad is not None:
+        return bad
     # the object rebuilt by the real reader is the model's reading of the payload, which is the spec
     a = answers[0]
     if str(y) != a["print_found"] or a["dec"] != model["dec"]:
